@@ -21,7 +21,7 @@ EXPLANATION = (
     ' Rounds 7-8: R5 also: self._ac_timer_status is assigned in __init__ and update_ac_timer_status only.'
 )
 ASSUMPTIONS = ["round() is Python's banker's rounding; ties are outside the decided clauses"]
-FLOORS = {"C11.R1": 12, "C11.R2": 8, "C11.R3": 18, "C11.R4": 6, "C11.R5": 8, "C11.R6": 1, "C11.R7": 1, "C11.R8": 1, "C11.R9": 1}
+FLOORS = {"C11.R1": 12, "C11.R2": 8, "C11.R3": 18, "C11.R4": 6, "C11.R5": 8, "C11.R6": 1, "C11.R7": 1, "C11.R8": 1, "C11.R9": 1, "C11.R10": 1}
 
 ZONES = ((AT4_API, "At4Zone"), (AT5_API, "At5Zone"))
 ACS = ((AT4_API, "At4AirConditioner"), (AT5_API, "At5AirConditioner"))
@@ -43,6 +43,10 @@ def run(ctx):
     from . import c05
 
     reuse(ctx, "C11.R9", [c05.r1_ability], "the limits a set-point is clamped into are the ones the console reported: the ability records are decoded as the vendor defines (C05.R1 for the ability decoders)")
+    from . import c01
+
+    reuse(ctx, "C11.R10", [c01.r3, c01.r5], "an accepted call ends in the queue and only the drain writes: a write fault is absorbed there (retry, reset), it never surfaces from a setter or costs the frame (C01.R3/R5)",
+          keep=lambda o: "who-may-call" in o.construct or "every-accepted" in o.construct or o.verdict != "HOLDS")
     reuse(ctx, "C11.R8", [c02.r5], "an accepted call is not silently dropped: commands are sent with a 30 s policy, never with the connected-only policy of the requests (C02.R5)",
           keep=lambda o: "command-lifetime" in o.construct or "idempotent-command" in o.construct or o.verdict != "HOLDS")
     reuse(ctx, "C11.R7", [c07.r7], "a raising subscriber does not abort the loop over the records of a status frame, so the abilities/sensor flags the validity checks read are those of the latest frame for every entity (C07.R7)")
@@ -295,6 +299,10 @@ def r3(ctx):
         twice = any(g.exists_path(a.id, b.id, labels=NONEXC) for a in tx for b in tx)
         multi = [n for n in tx if sum(1 for x in walk_no_nested(n.ast) if isinstance(x, ast.Call) and ((dotted(x.func) or "") == "self._socket.send" or (dotted(x.func) or "").startswith("self._send_"))) > 1]
         awaited = all(n.awaits for n in tx)
+        # the transmission is the only suspension point: a setter that waits first (a settle time, a lock, a status refresh) lets a
+        # second call overwrite what the first one is about to send, or sends after the state it validated against has changed
+        other = [n for n in g.nodes if n.awaits and n not in tx]
+        ctx.check(not other, R, f"{cls}.{meth}:suspends-only-to-transmit", m, (other[0].ast if other else f.node), "nothing but the transmission is awaited between the call and its frame", f"`{norm_text(other[0].ast)[:60]}` (line {other[0].lineno}) suspends the setter: calls made meanwhile interleave with it" if other else "")
         ctx.check(every and not twice and not multi and awaited, R, f"{cls}.{meth}:one-frame", m, f.node, "exactly one awaited transmission on every normal path", ("no transmission on some path; " if not every else "") + ("two transmissions on one path; " if twice or multi else "") + ("" if awaited else "not awaited"))
 
 
@@ -476,6 +484,23 @@ def r5(ctx):
         ci = m.get_class(cls)
         writers = sorted(mn for mn, fnode in ci.methods.items() if any(isinstance(x, (ast.Assign, ast.AnnAssign, ast.AugAssign)) and any(dotted(t) == "self._ac_timer_status" for t in (x.targets if isinstance(x, ast.Assign) else [x.target])) for x in ast.walk(fnode)))
         ctx.check(writers == ["__init__", "update_ac_timer_status"], R, f"{cls}:who-may-write:_ac_timer_status", m, ci.node, "self._ac_timer_status is assigned in __init__ and update_ac_timer_status only (the 'other' timer sent with a quick-timer command is the one the console last reported)", ", ".join(writers))
+    # ... and update_* is fed by received frames only: every call of an update_* method in the API modules sits in one of the
+    # _process_* handlers (reached from _message_received) and passes a record taken from the message being processed.  A
+    # synthetic record (e.g. "forget the timers on disconnect") makes the next command send something the console never reported.
+    from ..q import iter_functions as _iterf
+
+    for modname in (AT4_API, AT5_API):
+        m = ctx.repo.module(modname)
+        n_calls = 0
+        bad = []
+        for qual, fnode in _iterf(m):
+            for x in walk_no_nested(fnode):
+                if isinstance(x, ast.Call) and isinstance(x.func, ast.Attribute) and x.func.attr.startswith("update_") and x.func.attr in ("update_ac_status", "update_ac_timer_status", "update_ac_error_info", "update_group_status", "update_zone_status"):
+                    n_calls += 1
+                    if not (qual.split(".")[-1].startswith("_process_") or qual.split(".")[-1] == "_message_received"):
+                        bad.append((qual, x))
+        ctx.require(n_calls >= 4, f"{m.relpath}: fewer than four update_* calls found")
+        ctx.check(not bad, R, f"{modname.split('.')[1]}:who-may-call:update_*", m, (bad[0][1] if bad else None), "the stored records are replaced only from the _process_* handlers of received frames", "; ".join(f"{q}: {norm_text(x)[:50]}" for q, x in bad[:3]))
     # callers build the new state correctly
     for modname, cls, sender in ((AT4_API, "At4AirConditioner", "_send_timer_control_message"), (AT5_API, "At5AirConditioner", "_send_ac_timer_control_message")):
         f = fn_of(ctx, modname, f"{cls}.clear_quick_timer")
